@@ -25,7 +25,7 @@ theorem solve_fresh_no_raise (hL : FnsLaws α) (hr : 1 < p.r) (hn : 0 < p.n) (ht
   (solveLoop_total hL hr hn htot _ (procOK_fresh p)).1
 
 theorem procOK_of_core {ps ps' : PState α} (hc : ps'.core = ps.core) (h : ProcOK p ps) : ProcOK p ps' := by
-  obtain ⟨h1, h2, -, -⟩ := PState.core_eq_iff.1 hc
+  obtain ⟨h1, h2, -, -, -⟩ := PState.core_eq_iff.1 hc
   unfold ProcOK at h ⊢
   rw [h1, h2]; exact h
 
